@@ -229,6 +229,11 @@ def audit(rec, p, maxiter, maxfun, gtol, ftarget=None, scale=1.0, ck=None, ftarg
         if b > a:
             bad["C03.objective_never_increases"] = "objective sequence %s increases" % (seq,)
             break
+    rep = ([seq[0]] if seq else []) + [st["snap"]["fun"] / scale for st in rec["states"]] + [s["fun"] / scale]
+    for a, b in zip(rep, rep[1:]):
+        if b > a:
+            bad["C03.reported_fun_never_increases"] = "reported objective values %s increase" % (rep,)
+            break
     # ---- C02 (exact float comparisons)
     pts = [q for q, _ in rec["fcalls"]] + [q for q, _ in rec["gcalls"]]
     if any(np.any(q < lb) or np.any(q > ub) for q in pts):
@@ -576,6 +581,27 @@ def scenario_update(c):
                         bad.setdefault("C13.next_iterate_as_restart_on_new_objective",
                                        "%s switch at update %d: next iterate %s, a restart on the new objective from the rewritten history gives %s (pairs kept: %d)" % (
                                            kind, at, R["snap"]["x"].tolist(), C["snap"]["x"].tolist(), skr.shape[0]))
+        # ---- gradient rewrite at the INITIAL update call of a restart (the history is already populated there)
+        A0 = run_once(p, dict(maxiter=3, maxfun=10 ** 6, maxls=20, maxcor=mc, ftol=0.0, gtol=1e-12))
+        if A0["exc"] is None and A0["snap"]["sk"].shape[0] >= 1:
+            ck0 = A0["res"]
+            st0 = dict(calls=0)
+
+            def upd0(x, f0, f0_old, grad, X, G):
+                st0["calls"] += 1
+                if st0["calls"] != 1:
+                    return f0, f0_old, grad, G
+                return -f0, f0_old, -np.asarray(grad, float), deque(-np.asarray(g, float) for g in G)
+            pneg = dict(p, f=lambda x: -float(p["f"](x)), g=lambda x: -np.asarray(p["g"](x), float))
+            R0 = run_once(pneg, dict(maxiter=int(ck0.nit), maxfun=10 ** 6, maxls=20, maxcor=mc, ftol=0.0, gtol=1e-12), checkpoint=copy.deepcopy(ck0), x0=ck0.x, extra=dict(update_fun_def=upd0))
+            if R0["exc"] is not None:
+                bad.setdefault("C13.retained_pairs_satisfy_curvature", "gradient rewrite at the initial update call of a restart: the run raises %s: %s" % (type(R0["exc"]).__name__, str(R0["exc"])[:120]))
+            elif R0["snap"]["sk"].size:
+                sy = np.einsum("ij,ij->i", R0["snap"]["sk"], R0["snap"]["yk"])
+                yy = np.einsum("ij,ij->i", R0["snap"]["yk"], R0["snap"]["yk"])
+                if np.any(sy <= eps * yy):
+                    bad.setdefault("C13.retained_pairs_satisfy_curvature", "gradient rewrite (negated objective) at the initial update call of a restart: the result carries pairs with s.y=%s" % (sy.tolist(),))
+                    bad.setdefault("C18.pairs_have_positive_curvature", "gradient rewrite at the initial update call of a restart: result.hess_inv carries pairs with s.y=%s <= 0" % (sy.tolist(),))
         # ---- arbitrary gradient rewrite that breaks the curvature of an INTERIOR pair (pattern rewrite)
         for nstored in (3, 4):
             state = dict(calls=0, seen=None)
@@ -672,6 +698,22 @@ def scenario_scaler(c):
             elif len(calls) != 1 or not np.array_equal(calls[0]["x"], LS.gcalls[0][0]) or not np.array_equal(calls[0]["g"], LS.gcalls[0][1]) \
                     or not np.array_equal(calls[0]["lb"], lb) or not np.array_equal(calls[0]["ub"], ub):
                 bad.setdefault("C17.scaler_called_once_with_start_point_and_unscaled_gradient", "scaler invoked %d times / wrong arguments" % len(calls))
+        # start at a (numerically) stationary point: the scaled and the explicitly scaled runs must still agree
+        if not c.get("jac"):
+            T0 = run_once(p, dict(base, maxiter=200, gtol=1e-12))
+            if T0["exc"] is None:
+                xs = T0["snap"]["x"]
+                for s in (2.5, 0.01):
+                    callsX = []
+                    SX = run_once(p, dict(base, gtol=1e-7), x0=xs, callback_kind="false", extra=dict(gradient_scaler=lambda x, g, l_, u_, _s=s: (callsX.append(1), _s)[1]))
+                    EX = run_once(p, dict(base, gtol=1e-7), L=Logged(p, scale_obj=s), x0=xs, callback_kind="false")
+                    if SX["exc"] or EX["exc"]:
+                        continue
+                    d = _same_state(SX["snap"], EX["snap"], fields=("x", "fun", "jac", "nfev", "njev", "nit", "message"), tol=1e-9)
+                    if d:
+                        bad.setdefault("C17.same_result_as_scaled_objective", "start at a stationary point, s=%g: %s" % (s, "; ".join(d)[:300]))
+                    if len(callsX) != 1:
+                        bad.setdefault("C17.scaler_called_once_with_start_point_and_unscaled_gradient", "start at a stationary point: scaler invoked %d times" % len(callsX))
         # target tested on the unscaled value
         fstart = float(p["f"](np.clip(p["x0"], lb, ub)))
         ft = fstart - 1e-3 * (1 + abs(fstart))
@@ -731,6 +773,22 @@ def scenario_isolation(c):
             P3 = run_once(p, dict(base), L=L, callback_kind="false")
             if P3["exc"] or _same_state(P1["snap"], P3["snap"], fields=flds, tol=0.0):
                 bad.setdefault("C14.nested_run_does_not_disturb", "a run nested in objective call %d changes the result" % j)
+        # finite-difference runs with different settings nested in each other
+        base_fd = dict(base, maxiter=min(K, 4))
+        F1 = run_once(p, dict(base_fd), extra=dict(jac=None, eps=1e-8))
+        if F1["exc"] is None:
+            Lfd = Logged(p)
+            origf = Lfd.fun
+
+            def fun_fd(x, *a, _L=Lfd, _orig=origf):
+                if len(_L.fcalls) == 1:
+                    run_once(q, dict(base_fd, maxiter=2), extra=dict(jac="3-point", finite_diff_rel_step=1e-3))
+                return _orig(x)
+            Lfd.fun = fun_fd
+            F2 = run_once(p, dict(base_fd), L=Lfd, extra=dict(jac=None, eps=1e-8))
+            if F2["exc"] or _same_state(F1["snap"], F2["snap"], fields=("x", "fun", "jac", "nit", "sk", "yk", "message"), tol=0.0):
+                bad.setdefault("C14.nested_run_does_not_disturb", "a finite-difference run nested in the objective of another finite-difference run changes its result%s" % (": " + str(F2["exc"]) if F2["exc"] else ""))
+                bad.setdefault("C14.no_module_level_state_changed", bad["C14.nested_run_does_not_disturb"])
         # read-only inputs
         x0 = np.array(p["x0"], dtype=float)
         bnd = np.array(p["bounds"], dtype=float)
@@ -788,6 +846,7 @@ def scenario_fault(c):
     kinds = [c["fault_kind"]] if c.get("fault_kind") else ["fun", "jac", "callback", "ftarget", "gtol", "scaler", "update"]
     etypes = [TypeError, IndexError, ValueError, AssertionError, ZeroDivisionError, KeyError, _UserError]
     flds = ("x", "fun", "jac", "nfev", "njev", "nit", "sk", "yk", "message", "success")
+    err_state0 = np.geterr()
     for name in ("qp2", "rosen2"):
         p = problems()[name]
         bad = {}
@@ -845,6 +904,10 @@ def scenario_fault(c):
                     err = et("user failure #%d" % idx)
                     L1, extra1, _ = build(kind, (idx, err))
                     F = run_once(p, dict(base), L=L1, extra=extra1)
+                    if np.geterr() != err_state0:
+                        bad.setdefault("C20.fault_free_call_afterwards_unaffected", "after a %s in %s the numpy floating-point error state is %s (was %s): state left behind" % (et.__name__, kind, np.geterr(), err_state0))
+                        bad.setdefault("C20.no_module_level_state_changed", bad["C20.fault_free_call_afterwards_unaffected"])
+                        np.seterr(**err_state0)
                     if F["exc"] is not err:
                         got = "a result with message %r" % F["res"].message if F["exc"] is None else "%s: %s" % (type(F["exc"]).__name__, F["exc"])
                         bad.setdefault("C20.exception_propagates", "%s raising %s at its call %d: the caller gets %s" % (kind, et.__name__, idx, got))
